@@ -476,7 +476,11 @@ class ConnHarness:
 
     def __init__(self, lim: Limits) -> None:
         from aiohttp import web
+        from aiohttp import web_response
 
+        # the Date header is the only wall-clock dependent output: freeze it (harness process only)
+        if getattr(web_response, "rfc822_formatted_time", None) is not None:
+            web_response.rfc822_formatted_time = lambda: "Thu, 01 Jan 1970 00:00:00 GMT"  # type: ignore[assignment]
         self.loop = get_loop()
         self.lim = lim
         self.seen: List[dict] = []
